@@ -11,6 +11,7 @@ import (
 	"fmt"
 	"os"
 	"strconv"
+	"strings"
 	"time"
 )
 
@@ -67,6 +68,30 @@ func main() {
 			os.Exit(2)
 		}
 		os.Exit(runCheck(*prop, *tier, seed, *budget, *maxRuns))
+	case "selftest":
+		fs := flag.NewFlagSet("selftest", flag.ExitOnError)
+		props := fs.String("p", "C04,C05,C06,C07,C08,C09,C13,C16,C17", "properties")
+		n := fs.Int("n", 40, "run seeds per property (determinism)")
+		filter := fs.String("filter", "", "substring of mutant file names (mutants)")
+		budget := fs.Duration("budget", 25*time.Second, "per check time box (mutants)")
+		if len(os.Args) < 3 {
+			fmt.Fprintln(os.Stderr, "usage: vsim selftest determinism|mutants")
+			os.Exit(2)
+		}
+		fs.Parse(os.Args[3:])
+		seed := uint64(1)
+		if s := os.Getenv("VERIF_SEED"); s != "" {
+			if v, err := strconv.ParseUint(s, 10, 64); err == nil {
+				seed = v
+			}
+		}
+		switch os.Args[2] {
+		case "determinism":
+			os.Exit(selftestDeterminism(strings.Split(*props, ","), *n, seed))
+		case "mutants":
+			os.Exit(selftestMutants(*filter, *budget))
+		}
+		os.Exit(2)
 	case "replay":
 		if len(os.Args) < 3 {
 			fmt.Fprintln(os.Stderr, "usage: vsim replay <file>")
